@@ -132,6 +132,8 @@ class Ctx:
         if bucket not in self.found:
             self.found[bucket] = {"what": what, "case": jsonable(case)}
             return True
+        if len(repr(jsonable(case))) < len(repr(self.found[bucket]["case"])):
+            self.found[bucket] = {"what": what, "case": jsonable(case)}
         return False
 
     def fresh(self, discrepancies):
@@ -212,7 +214,9 @@ class Ctx:
                 self.samples.append(s)
         self.classes.update(d["classes"])
         for b, v in d["found"].items():
-            self.found.setdefault(b, v)
+            # keep the smaller reproduction of a bucket
+            if b not in self.found or len(repr(v["case"])) < len(repr(self.found[b]["case"])):
+                self.found[b] = v
         self.excluded_known.update(d["excluded_known"])
         for k, v in d["notes"].items():
             if isinstance(v, (int, float)) and isinstance(self.notes.get(k), (int, float)):
@@ -334,3 +338,48 @@ def finish(ctx: Ctx, *, level: str, rule: str, assumptions, t0: float, extra=Non
         print(f"  bucket {bucket}: {what}")
         print(f"VIOLATION property={pid} replay={path}")
     return 1 if violations else 0
+
+
+# ---- stateful (rule-based) driver ----------------------------------------------------------------
+def hyp_machine(ctx: Ctx, make_machine, *, max_examples: int, step_count: int, name: str = "machine", rounds: int = 6,
+                shrink: bool = True):
+    """Run a Hypothesis RuleBasedStateMachine with the collect-bucket-shrink protocol of Ctx.hyp.
+
+    make_machine(flag) must return a RuleBasedStateMachine subclass; the machine calls flag(list of (bucket, what, case))
+    after every step (typically from an @invariant or at the end of each rule)."""
+    import hypothesis
+    from hypothesis import HealthCheck, Phase, settings
+    from hypothesis.stateful import run_state_machine_as_test
+
+    phases = [Phase.explicit, Phase.generate, Phase.target] + ([Phase.shrink] if shrink else [])
+    cfg = settings(max_examples=max_examples, stateful_step_count=step_count, deadline=None, database=None, derandomize=False,
+                   report_multiple_bugs=False, phases=phases, suppress_health_check=list(HealthCheck), print_blob=False,
+                   verbosity=hypothesis.Verbosity.quiet)
+    base_seed = ctx.seed * 1000 + ctx.shard
+    for rnd in range(rounds):
+        state = {"target": None, "last": None}
+
+        def flag(discrepancies):
+            res = ctx.fresh(discrepancies)
+            if not res:
+                return
+            if state["target"] is None:
+                state["target"] = res[0][0]
+            for b, w, c in res:
+                if b == state["target"]:
+                    state["last"] = (b, w, c)
+                    raise Discrepancy(b, w, c)
+
+        machine = hypothesis.seed(base_seed * 10 + rnd)(make_machine(flag))
+        try:
+            run_state_machine_as_test(machine, settings=cfg)
+            return
+        except Discrepancy:
+            pass
+        except hypothesis.errors.HypothesisException:
+            raise
+        except Exception:
+            if state["last"] is None:
+                raise
+        b, w, c = state["last"]
+        ctx.found[b] = {"what": w, "case": jsonable(c), "via": name}
